@@ -7,11 +7,20 @@ open Lean Gomacro.IR Gomacro.DartGen
 def c06Gen : Handler := fun j => do
   let env ← decEnv (← getObj j "env")
   let files := generate env (getStrD j "prefix")
+  -- the linking check again with the imports of the real output (when given)
+  let realImports : List (String × List String) := match j.getObjVal? "imports" with
+    | .ok (.obj kvs) => kvs.toList.map fun (k, v) => (k, (v.getArr?.toOption.getD #[]).toList.filterMap fun x => x.getStr?.toOption)
+    | _ => []
+  let filesR := files.map fun f => match realImports.lookup f.name with
+    | some imps => { f with imports := imps }
+    | none => f
   return Json.mkObj [("files", Json.arr (files.map fun f =>
     Json.mkObj [("name", f.name), ("imports", strs f.imports),
       ("decls", Json.arr (f.candidates.map fun e => Json.mkObj [("id", e.id), ("text", e.text)]).toArray),
       ("closed", closedFile files f), ("noSelfImport", noSelfImport f),
       ("clashes", strs (clashes f)),
+      ("closedReal", (filesR.find? (·.name == f.name)).map (fun fr => closedFile filesR fr) |>.getD true),
+      ("undefinedReal", strs (((filesR.find? (·.name == f.name)).map (fun fr => unresolved filesR fr)).getD []).eraseDups),
       ("undefined", strs (unresolved files f).eraseDups)]).toArray)]
 
 end Gomacro.Drv
